@@ -101,6 +101,11 @@ class Prop(GraphProp):
             {**base, "herm": True, "sizes": [1, 2], "npert": 1, "terms": [[1]], "comps": [comp, {**comp, "fd": [0, 1], "chain": 0}]},
             {**base, "herm": True, "domain": "sparse", "fmt": "scalar_idx", "sizes": [2, 2], "npert": 1, "terms": [[1]],
              "comps": [{**comp, "solver": "legacy"}, {**comp, "solver": "custom"}]},
+            {**base, "herm": True, "domain": "tracer", "sizes": [1, 1], "npert": 1, "terms": [[1], [2]], "internals": True,
+             "comps": [{**comp, "two_block_optimized": True, "commuting_blocks": [True, True]}]},
+            {**base, "herm": True, "domain": "sq", "sq_modes": 1, "sizes": [1, 1], "npert": 1, "terms": [[1]], "cap": 2, "comps": [comp]},
+            {**base, "herm": True, "domain": "sym", "sizes": [1, 2], "npert": 1, "terms": [[1]], "real": True,
+             "comps": [{**comp, "fd": [1]}]},
         ]
         if tier == "thorough":
             fam += [
@@ -119,7 +124,7 @@ class Prop(GraphProp):
 
         cases = []
         for wi, w in enumerate(self.fixed_family(tier)):
-            w = {**w, "cap": 3 if w["npert"] == 1 else 2}
+            w = {**w, "cap": w.get("cap", 3 if w["npert"] == 1 else 2)}
             nsched = 2 if tier == "quick" else 4
             for si in range(nsched):
                 r = rng.rnd(seed, "C11", "fixed", wi, si)
